@@ -244,7 +244,7 @@ def _ref_from(table):
 
 
 def ops_alphabet(nr, nc, small=False):
-    vals = ["x", 7, 2.5, True]
+    vals = ["x", 7, 2.5, True, 1234567890123456, -9007199254740991]  # incl. integers that need 16 significant digits
     ops = [("save",)]
     if small:
         ops += [("write", 0, 0, "x"), ("write", nr, nc, 7), ("add_row", 1, None, None), ("add_row", 1, 0, "d"),
